@@ -4,7 +4,7 @@ from pathlib import Path
 LIBS = ["libavoid"]
 HARNESS = "harness/c11.cpp"
 DRIVER_MODE = "c11"
-LEAN_MODULES = ["AdaptaVerif.Props.C11"]
+LEAN_MODULES = ["AdaptaVerif.Props.C11", "AdaptaVerif.Props.C11Tie"]
 # COLA_ASSERT throws vpsc::CriticalFailure instead of calling abort(): a failed library assertion is
 # reported per case by the harness ("assert" line) and decided by the driver
 EXTRA_FLAGS = ["-DUSE_ASSERT_EXCEPTIONS"]
@@ -60,6 +60,15 @@ def _known_ids():
                 if e.get("status") == "known"}
     except Exception:
         return set()
+
+
+def regenerate(ROOT, REPO):
+    """ShapeConnectionPin::directions() is regenerated from connectionpin.cpp by cpp2lean on every run and
+    proved equal to Model/Pins.pinDirections (Props/C11Tie.lean)"""
+    import sys
+    sys.path.insert(0, str(Path(ROOT) / "tools" / "cpp2lean"))
+    import jobs
+    return jobs.regenerate(["pindirs"], Path(ROOT), Path(REPO))
 
 
 def plan(tier, seed, searching):
